@@ -154,7 +154,7 @@ CLAIMED['C09'] = dict(
          'translation is neutral; concatenated renderings of wf trees under any blank separator and any options parse back to exactly those trees with their own '
          'metadata; loads(dumps(gs)) decodes exactly the encoded strings and dump writes dumps + newline.',
     design_ref='DESIGN.md §5 C09',
-    note=TB + ' C09_dumps_loads is conditional on the configured trees being wf (C03/C06 content); error outcomes are identified up to the DecodeError offset after a '
+    note=TB + ' the premise of C09_dumps_loads is discharged in Properties/C09b.v (C09b_dumps_loads_unconditional: for graphs meeting the end-to-end hypotheses loads(dumps gs) returns graphs graph_eq to the inputs, alignments kept); error outcomes are identified up to the DecodeError offset after a '
          'CR-carrying comment; real files, StringIO, encodings and OS newline handling are outside the model: the harness writes and reads real temporary files through '
          '22 containers x 4 separators (80k correspondence cases quick).',
     technique='Coq proof (framing of the lexer, concatenation via C01 lemmas) + differential correspondence + cross-container oracle with real files',
@@ -234,8 +234,9 @@ CLAIMED['C12'] = dict(
          'keeps the top, keeps node_graph (every source a variable owning one instance triple) and keeps connectivity; reify_attributes leaves no attribute and contracts back; '
          'indicate_branches adds exactly one top-role triple per Push and removing them restores the original.',
     design_ref='DESIGN.md §5 C12',
-    note=TB + ' the serialisation clause (encodes, decodes to itself up to one deinversion) is an instance of C03/C06 and is covered here by the oracle on 236k (graph, program) pairs '
-         '(all programs of length <= 3 quick / <= 4 thorough, CLI order and others); connected_b is proved sound, not complete; tables must not define :instance as a reification role.',
+    note=TB + ' the serialisation clause is a theorem too (Properties/C12b.v, composing the invariants with the end-to-end round trip): unconditional for reify_edges, reify_attributes and every program of those two; '
+         'for indicate_branches given distinct result triples; for dereify_edges *_partial (result distinctness, Push names, printable alignments stay hypotheses: machine-checked examples show each can fail on hand-built graphs); the live AMR table is computed to satisfy the table hypotheses; '
+         'the oracle additionally runs 236k (graph, program) pairs (all programs of length <= 3 quick / <= 4 thorough, CLI order and others); connected_b is proved sound, not complete; tables must not define :instance as a reification role.',
     technique='Coq proof (invariant preservation per transform, induction on programs) + differential correspondence + well-formedness/round-trip oracle',
 )
 CLAIMED['C16'] = dict(
